@@ -49,7 +49,7 @@ def run(ctx):
     else:
         base_idx, zero_idx, alltargets = list(range(64)), list(range(64)), "TRUE"
         seq_ns, seq_fs, seq_orders = [0, 1, 2, 5, 16, 30, 31], [0, 3, 31, 32, 40, 63], ['"asc"', '"desc"', '"mix"']
-        store = {"correct": (8, 4), "byz": (6, 3)}
+        store = {"correct": (8, 4), "byz": (8, 4)}
     wdefs = (f"BaseIdxDef == {tset(base_idx)}\nZeroIdxDef == {tset(zero_idx)}\n"
              f"SeqNsDef == {tset(seq_ns)}\nSeqFsDef == {tset(seq_fs)}\nSeqOrdersDef == {tset(seq_orders)}\n")
 
